@@ -21,7 +21,7 @@ import (
 // plus shorter/longer variants; credentials accepted or rejected; handler
 // state before the request arbitrary.
 //
-//verif:harness kind=api replay=interp unwind=64 bound=method<=5,host<=9,path<=6(symbolic-bytes),one-request-from-arbitrary-handler-state
+//verif:harness kind=api replay=interp unwind=64 bound=method<=5,host<=9,path<=6(symbolic-bytes),bandwidth-header:absent/numeric/empty/overflow/3-symbolic-bytes,one-request-from-arbitrary-handler-state
 func ZZ_C02_OnlyMasquerade() {
 	method := verifString("method", 3+verifChoice("methodLen", 3))
 	host := verifString("host", 7+verifChoice("hostLen", 3))
@@ -51,7 +51,19 @@ func ZZ_C02_OnlyMasquerade() {
 		ev.connects = nil
 	}
 	w := &zzRW{}
-	r := zzAuthRequest(method, host, path, "cred", "100", true)
+	// the bandwidth header is the peer's too: absent, numeric, empty, overflowing or arbitrary text
+	rx, hasRx := "100", true
+	switch verifChoice("rxHeader", 5) {
+	case 1:
+		hasRx = false
+	case 2:
+		rx = ""
+	case 3:
+		rx = "18446744073709551616"
+	case 4:
+		rx = verifString("rx", 3)
+	}
+	r := zzAuthRequest(method, host, path, "cred", rx, hasRx)
 	h.ServeHTTP(w, r)
 	isAuth := method == "POST" && host == "hysteria" && path == "/auth"
 	if isAuth && (accept || already) {
